@@ -1,10 +1,24 @@
 import SaphyrModel.Sc.Scan2
-/-! # C05 — Block scalars (function-level component theorems)
+import SaphyrModel.Proofs.BlockLit
+/-! # C05 — Block scalars (function-level theorems)
 
-The text of a block scalar is assembled from content lines and breaks; whatever the break style
-in the input, a break contributes exactly one line feed. The chomping / folding / indentation
-assembly (`block_decode`) is not proved: for it the check relies on the exhaustive enumeration of
-line lists against the independent §8.1 reference (oracle) and the correspondence. -/
+**Proved** (string input, for every list of content lines, every indentation ≥ 1, every accumulated prefix):
+* `literal_content_lines` — in front of `n ≥ 1` content lines, each indented by exactly the content
+  indentation and ended by a line feed, followed by a less indented line or the end of the input, the content
+  loop of a literal block scalar returns the lines verbatim, joined by single line feeds (nothing added,
+  dropped or folded; further spaces at the start of a line are content), leaves one pending line feed and no
+  trailing breaks, and stops in column 0 in front of what follows;
+* `literal_chomping` — the chomping step then gives: strip — the lines without a final break; clip and keep —
+  exactly one final break;
+* `content_line_read_verbatim`, `indentation_skipped` — the two ingredients, for *both* back-ends and whatever
+  path the scanner takes (buffer or raw reads; one look-ahead or refills): a content line is read up to the next
+  break; the spaces in front of a line are skipped up to the content indentation, no further;
+* `readBreak_appends_lf` — whichever break was consumed, one line feed is appended.
+
+**Not proved**: folded style (joining of adjacent non-indented lines), blank and more- or less-indented line
+bookkeeping between content lines, indentation auto-detection and the header, the end-of-stream cases. For
+those the check relies on the exhaustive enumeration of line lists against the independent §8.1 reference and
+on the correspondence. -/
 namespace SaphyrModel.C05
 open SaphyrModel SaphyrModel.Sc
 
@@ -20,5 +34,44 @@ theorem readBreak_appends_lf (acc : Str) (s : Sc) :
   | ok r => obtain ⟨_, s'⟩ := r; simp [Pure.pure]
   | err e => trivial
   | panic p => trivial
+
+/-- **The content lines of a literal block scalar are read verbatim** (see `Proofs/BlockLit.lean`). -/
+theorem literal_content_lines (ind : Nat) (hind : ind ≠ 0) (tail : Str) (ht1 : tail.headD '\x00' ≠ ' ')
+    (ht2 : isBreak (tail.headD '\x00') = false) (ls : List Str) (l : Str) (a : BlkAcc) (s : Sc) (fuel : Nat)
+    (hl : GoodLine l) (hls : ∀ l' ∈ ls, GoodLine l') (hk : s.inp.kind = .str) (hcol : s.mark.col = ind)
+    (hi : s.inp.iter = l ++ '\n' :: restLines ind ls tail) :
+    (∃ p, blockScalarLines true ind fuel a s = .panic p) ∨
+    ∃ s' b, blockScalarLines true ind fuel a s =
+        .ok (⟨a.str ++ a.leadingBreak ++ a.trailingBreaks ++ joinLines l ls, ['\n'], [], b⟩, s') ∧
+      s'.inp.kind = .str ∧ s'.inp.iter = tail ∧ s'.mark.col = 0 :=
+  literal_lines ind hind tail ht1 ht2 ls l a s fuel hl hls hk hcol hi
+
+/-- chomping of a literal block scalar without trailing blank lines: strip — no final break; clip, keep — one -/
+theorem literal_chomping' (chomping : Chomping) (ind : Nat) (content : Str) (b : Bool) (s : Sc)
+    (hk : s.inp.kind = .str) (hcol : s.mark.col = 0) :
+    blockFinish chomping ind ⟨content, ['\n'], [], b⟩ s s =
+      .ok ((match chomping with | .strip => content | _ => content ++ ['\n']), s) :=
+  literal_chomping chomping ind content b s hk hcol
+
+/-- a content line is read verbatim up to the next break or the end — on a string input, whichever of the two
+    paths (look-ahead buffer or raw reads) is taken -/
+theorem content_line_read_verbatim (str : Str) (s : Sc) (hk : s.inp.kind = .str) :
+    (∃ p, scanBlockScalarContentLine str s = .panic p) ∨
+    scanBlockScalarContentLine str s = .ok (str ++ s.inp.iter.takeWhile C10.nb,
+      C10.advS s (s.inp.iter.takeWhile C10.nb).length { s.inp with iter := s.inp.iter.dropWhile C10.nb }) :=
+  C10.line_str str s hk
+
+/-- the spaces in front of a block-scalar line are skipped up to the content indentation and no further — on a
+    string input, whichever path (one look-ahead request or the refill loop) is taken -/
+theorem indentation_skipped (ind : Nat) (u : Sc) (hk : u.inp.kind = .str) :
+    (∃ p, C10.indentPart ind u = .panic p) ∨
+    ∃ la', C10.indentPart ind u = .ok ((), C10.advS u (C10.spc (ind - u.mark.col) u.inp.iter)
+      { u.inp with iter := u.inp.iter.drop (C10.spc (ind - u.mark.col) u.inp.iter), la := la' }) :=
+  C10.part_str ind u hk
+
+/-- the hypotheses of `literal_content_lines` are met by ordinary lines -/
+example : GoodLine "a b".toList ∧ GoodLine "  more indented".toList ∧
+    restLines 2 ["x".toList] "k: v".toList = "  x\nk: v".toList ∧ joinLines "a".toList ["b".toList, "c".toList] = "a\nb\nc".toList := by
+  refine ⟨⟨by decide, by decide⟩, ⟨by decide, by decide⟩, by decide, by decide⟩
 
 end SaphyrModel.C05
